@@ -931,7 +931,10 @@ func (c *Ctx) ruleRONested() {
 					continue
 				}
 				for _, sub := range ra.unguarded(site.Callee, j) {
-					if roBookkeeping[sub.loc] || sub.shallow {
+					// a shallow write (into the cell the argument itself points at) is harmless only
+					// when that cell is a local copy; a *stack / *condition taken from a nested
+					// object is the object's own storage
+					if roBookkeeping[sub.loc] || (sub.shallow && !pointsIntoNested(a)) {
 						continue
 					}
 					msgs = append(msgs, fmt.Sprintf("%s written at %s via %s", sub.loc, c.p.instrPos(sub.instr), strings.Join(sub.chain, " -> ")))
@@ -978,4 +981,14 @@ func (ra *roAnalysis) roFalseOnTerm(fa *FnAnalysis, st *State, obj *Term) bool {
 		}
 	}
 	return false
+}
+
+// pointsIntoNested: the argument is a pointer value obtained from somewhere (a load, a field
+// of a call result) rather than the address of a local variable of the caller.
+func pointsIntoNested(a ssa.Value) bool {
+	if isLocalAddr(a) {
+		return false
+	}
+	_, isPtr := a.Type().Underlying().(*types.Pointer)
+	return isPtr
 }
